@@ -67,6 +67,15 @@ class GenM(B.GenX):
         g = oh.make_graph([oh.make_node("Relu", ["x"], ["y"])], "g", [oh.make_tensor_value_info("x", TP.FLOAT, [2])], [oh.make_tensor_value_info("y", TP.FLOAT, [2])])
         self.old_models.append(oh.make_model(g, opset_imports=[oh.make_operatorsetid("ai.onnx", 15)], ir_version=8))
 
+        # an opset-11 model that also holds a node of another domain (the shape sklearn converters produce): its default-domain
+        # nodes (axes still an attribute of Squeeze/Unsqueeze) must be converted like those of a pure default-domain model
+        g = oh.make_graph([oh.make_node("Unsqueeze", ["x"], ["u"], axes=[0]), oh.make_node("Squeeze", ["u"], ["s"], axes=[0]),
+                           oh.make_node("Scaler", ["s"], ["y"], domain="ai.onnx.ml", scale=[2.0], offset=[0.5])], "g",
+                          [oh.make_tensor_value_info("x", TP.FLOAT, [2])], [oh.make_tensor_value_info("y", TP.FLOAT, [2])])
+        mm = oh.make_model(g, opset_imports=[oh.make_operatorsetid("", 11), oh.make_operatorsetid("ai.onnx.ml", 1)], ir_version=8)
+        onnx.checker.check_model(mm, full_check=True)
+        self.old_models.append(mm)
+
     def make_function(self, depth=0):
         rng = self.rng
         if rng.random() < 0.5:
@@ -202,10 +211,30 @@ class Recorder:
             return self.orig_node(node, proto, source_version, target_version, var_names)
 
         A.adapt_node = adapt_node
+        self.orig_inline, self.inline_calls = A.adapt_inline, []
+
+        def adapt_inline(node, protos, target_opsets, var_names, node_name):
+            seen, orig = [], onnx.version_converter.convert_version
+
+            def conv(model, target):
+                seen.append(target)
+                return orig(model, target)
+
+            onnx.version_converter.convert_version = conv
+            try:
+                return self.orig_inline(node, protos, target_opsets, var_names, node_name)
+            finally:
+                onnx.version_converter.convert_version = orig
+                src = max([i.version for i in node.model.opset_import if i.domain in ("", "ai.onnx")], default=None)
+                for t in seen:
+                    self.inline_calls.append((id(node), src, t))
+
+        A.adapt_inline = adapt_inline
         return self
 
     def __exit__(self, *a):
         self.A.adapt_node = self.orig_node
+        self.A.adapt_inline = self.orig_inline
 
 
 def differs_table(refl: B.Reflect):
@@ -258,10 +287,28 @@ def run(run: Run) -> int:
         with Recorder() as rec:
             B.run_impl(c)
         c.meta["converted"] = rec.calls
+        c.meta["converted_inline"] = rec.inline_calls
         cases.append(c)
         refs.append(None)
         hist.update({f"module v{k}": v for k, v in g.op.used.items()})
         hist["outcome " + (c.impl.split(" ")[1] if c.impl.startswith("ERR") else "model")] += 1
+        if i % 3 == 0 and c.model_proto is not None:
+            # the same Vars built once more next to an operator of the newest module: the final opset may now be another one, and
+            # nothing remembered from the first build (converted inlined models, function definitions) may leak into this one
+            try:
+                with warnings.catch_warnings():
+                    warnings.simplefilter("ignore")
+                    extra = MODS[21].identity(next(v for v in ins.values() if v.type.dtype == np.dtype(F32)))
+            except Exception:  # noqa: BLE001
+                continue
+            c2 = B.Case(ins, dict(outs, zz_newest=extra), False, {"recipe_seed": seed, "second_build": True})
+            with Recorder() as rec:
+                B.run_impl(c2)
+            c2.meta["converted"] = rec.calls
+            c2.meta["converted_inline"] = rec.inline_calls
+            cases.append(c2)
+            refs.append(None)
+            hist["second build at the newest opset"] += 1
     # --- direct oracles
     n_sem = 0
     for c, _ in zip(cases, refs):
@@ -340,7 +387,9 @@ def run(run: Run) -> int:
             k, rest = x[1:].split(":", 1)
             return f"{ident(int(k))}:{rest}"
         mdec = ",".join(sorted({mname(x) for x in parts[1].split(",") if x and x != "warn" and x.startswith("n")}))
-        # inline blocks: adapt_inline does not go through adapt_node; compare node conversions only
+        # inlined models: which _Inline nodes had their model converted, from which version to which
+        idec_model = {x[1:] for x in parts[1].split(",") if x.startswith("i")}
+        idec_impl = {f"{nodeidx.get(nid)}:{sv}>{tv}" for nid, sv, tv in c.meta.get("converted_inline", []) if nodeidx.get(nid) in emitted}
         mdec_nodes = ",".join(x for x in mdec.split(",") if x)
         if parts[0] != imp:
             mism += 1
@@ -348,7 +397,11 @@ def run(run: Run) -> int:
         elif set(dec.split(",")) - {""} != set(mdec_nodes.split(",")) - {""}:
             mism += 1
             run.fail("corr", "C09/model-vs-impl/decisions", f"conversion decisions differ: impl [{dec}] model [{mdec_nodes}]", {"case": B.describe(c)})
-        elif not mdec and parts[2] != c.impl:
+        elif idec_model != idec_impl:
+            mism += 1
+            run.fail("corr", "C09/model-vs-impl/inline-decisions", f"conversions of inlined models differ: impl {sorted(idec_impl)} model {sorted(idec_model)}",
+                     {"case": B.describe(c)})
+        elif not mdec and not idec_model and parts[2] != c.impl:
             mism += 1
             run.fail("corr", "C09/model-vs-impl/rendering", "no conversion needed but the emitted models differ", {"model": parts[2][:600], "case": B.describe(c)})
     cov = {
